@@ -188,10 +188,11 @@ PROPS["C12"] = dict(
 
 PROPS["C09"] = dict(
     level="other",
-    claim="In each of the 41 index resolve_optype specialisations with a compile-time branch, that branch is defined as the paired run-time function applied to to_value_v of the specialisation's own parameters in parameter order, and every ct<>/clipped<> constant it builds is an unmodified element of that call's result - so the value computed at compile time is the value the run-time code computes, by construction. For shape_squeeze - whose clipped-tuple, fixed-array and run-time-length branches are three separate pieces of code - E1 additionally proves that all of them (std::array, utl::array, bounded static_vector, tuple of clipped integers) return the same, NumPy, result for every pattern of single extents at ranks 1..4. Branch agreement of the other index functions is decided only as far as the E1 components of C01-C08 instantiate several kinds with one obligation text; STL vs non-STL and compiler independence are not decided.",
+    claim="In each of the 41 index resolve_optype specialisations with a compile-time branch, that branch is defined as the paired run-time function applied to to_value_v of the specialisation's own parameters in parameter order, and every ct<>/clipped<> constant it builds is an unmodified element of that call's result - so the value computed at compile time is the value the run-time code computes, by construction. For shape_squeeze - whose clipped-tuple, fixed-array and run-time-length branches are three separate pieces of code - E1 additionally proves that all of them (std::array, utl::array, bounded static_vector, tuple of clipped integers) return the same, NumPy, result for every pattern of single extents at ranks 1..4. The 15-kind cast matrix (constant / fixed / bounded / dynamic / clipped shape x fixed / bounded / dynamic buffer) is checked by 15 type-level witnesses: the result of cast(a, kind) has exactly the shape knowledge and buffer kind its tag names, element type kept. Branch agreement of the other index functions is decided only as far as the E1 components of C01-C08 instantiate several kinds with one obligation text; STL vs non-STL and compiler independence are not decided.",
     note=E2_NOTE + " " + E1_NOTE,
     technique="static: custom libTooling extractor + by-construction rule on type-level branches (argument order, unmodified result); " + E1_TECH + " for branch agreement of shape_squeeze",
     e1=[dict(tu="c03d_squeeze.cpp")],
+    e3=[dict(group="C09")],
     e2=[dict(rule="R-CONSTBRANCH")],
     rule=E1_RULE + "; E2: one instance per resolve_optype<void, index::TAG_t, ...> specialisation that builds constants; distinct by (file, specialisation arguments)",
     explanation="A hand-written type-level computation, a swapped to_value argument or a post-adjusted constant (ct<at(result,i)+1>) is a structural deviation and is reported with the specialisation.",
